@@ -234,15 +234,14 @@ func (e *Engine) assertObl(label string, cond *Term) {
 			activeIDs = append(activeIDs, id)
 		}
 	}
-	q := append(append([]*Term{}, e.pc...), ncond)
-	q = append(q, excl...)
-	r, _ := e.solver.Check(q, nil)
+	q := append([]*Term{ncond}, excl...)
+	r, _ := e.solver.CheckInc(e.pc, q, nil)
 	switch r {
 	case rUnsat:
 		if len(excl) > 0 {
 			// does it fail inside a known region?
 			for _, id := range activeIDs {
-				r2, _ := e.solver.Check(append(append([]*Term{}, e.pc...), ncond, e.known[id]), nil)
+				r2, _ := e.solver.CheckInc(e.pc, []*Term{ncond, e.known[id]}, nil)
 				if r2 == rSat {
 					e.res.knownHits[id] = true
 				}
